@@ -280,3 +280,121 @@ func init() {
 	register(&Scenario{Name: "close-with-blocked-reply", Prop: "C10", Horizon: time.Hour, Weight: 50, Run: c10BlockedReply})
 	register(&Scenario{Name: "blocked-reply-keeps-working", Prop: "C12", Horizon: time.Hour, Weight: 4, Run: c10BlockedReply})
 }
+
+// c10ReqCtxClose: several REQ contexts (and the socket itself) blocked in Send
+// for lack of a peer; one context is closed - its Send returns the closed
+// error, nobody else's does anything; then a peer connects and every other
+// blocked Send goes out.
+func c10ReqCtxClose(w *W) {
+	nctx := 2 + w.Choose(simrt.SShape, 3)
+	w.SetShape("ctxs", nctx)
+	mn := w.UseMsgNet()
+	addr := w.Addr("msg")
+	s := w.Sock("req")
+	defer s.Close()
+	if err := w.ListenOn(s, addr); err != nil {
+		w.Failf("HARNESS/listen", "%v", err)
+		return
+	}
+	type snd struct {
+		c    mangos.Context
+		call *Call
+		tag  string
+	}
+	var snds []*snd
+	for i := 0; i < nctx; i++ {
+		x := &snd{tag: fmt.Sprintf("req-%d", i)}
+		if i > 0 {
+			c, err := s.OpenContext()
+			if err != nil {
+				w.Failf("HARNESS/ctx", "%v", err)
+				return
+			}
+			x.c = c
+		}
+		x.call = w.Do("Send "+x.tag, func() (interface{}, error) {
+			if x.c != nil {
+				return nil, x.c.Send([]byte(x.tag))
+			}
+			return nil, s.Send([]byte(x.tag))
+		})
+		snds = append(snds, x)
+		if w.Choose(simrt.SProg, 2) == 0 {
+			w.Settle()
+		}
+	}
+	w.Settle()
+	for _, x := range snds {
+		if x.call.Returned() {
+			w.Failf("HARNESS/blocked", "Send %s returned (%v) without a peer", x.tag, x.call.Err)
+			return
+		}
+	}
+	// close one or two of the contexts (never the socket's own)
+	closedSet := map[*snd]bool{}
+	for k := 1 + w.Choose(simrt.SProg, 2); k > 0; k-- {
+		v := snds[1+w.Choose(simrt.SProg, nctx-1)]
+		if closedSet[v] {
+			continue
+		}
+		closedSet[v] = true
+		t0 := w.Now()
+		cl := w.Do("Context.Close "+v.tag, func() (interface{}, error) { return nil, v.c.Close() })
+		w.Settle()
+		if !cl.Returned() || !v.call.Returned() || v.call.RetTime != t0 || v.call.Err != mangos.ErrClosed {
+			w.Failf("C10/call-not-unblocked:ctx", "REQ context closed at %v while its Send was waiting for a peer: Close returned=%v, Send returned=%v at %v with %v", t0, cl.Returned(), v.call.Returned(), v.call.RetTime, v.call.Err)
+			return
+		}
+		for _, x := range snds {
+			if !closedSet[x] && x.call.Returned() {
+				w.Failf("C10/context-close-harmed-others", "closing the context of %s ended the Send %s of another context (%v)", v.tag, x.tag, x.call.Err)
+				return
+			}
+		}
+	}
+	p := mn.Connect(addr)
+	w.Settle()
+	if p == nil {
+		w.Failf("C10/part-close-broke-listener", "after closing a context nobody accepts on the socket's listener")
+		return
+	}
+	// one request per connection at a time: the peer answers what it gets, the next goes out
+	for round := 0; round < nctx+1; round++ {
+		w.Sleep(time.Millisecond)
+		w.Settle()
+		for {
+			m, ok := p.Take()
+			if !ok {
+				break
+			}
+			p.Inject(append(append([]byte(nil), m.Header...), "ok"...))
+		}
+	}
+	w.Settle()
+	for _, x := range snds {
+		if !closedSet[x] && !x.call.Returned() {
+			w.Failf("C10/context-close-harmed-others", "%s was blocked for lack of a peer when another context of the socket was closed; a peer is attached now (and answers), the Send is still pending%s", x.call.Label, w.BlockedReport())
+			return
+		}
+	}
+	sent := map[string]bool{}
+	for _, m := range p.Sent() {
+		sent[string(m.Body)] = true
+	}
+	for _, x := range snds {
+		if closedSet[x] && sent[x.tag] {
+			w.Failf("C10/closed-context-request-transmitted", "the request %s of a context closed before any peer existed was transmitted", x.tag)
+			return
+		}
+		if !closedSet[x] && !sent[x.tag] {
+			w.Failf("C10/context-close-harmed-others", "the request %s of a context that was not closed never reached the peer", x.tag)
+			return
+		}
+	}
+	w.Delivery += len(snds)
+	w.Probe("context-close-leaves-other-senders")
+}
+
+func init() {
+	register(&Scenario{Name: "req-context-close-leaves-other-senders", Prop: "C10", Horizon: time.Hour, Weight: 12, Run: c10ReqCtxClose})
+}
